@@ -665,7 +665,7 @@ class CommitRun:
         self.commits = []
         self.ops = []
         self.ids = {}
-        if kind in ("worktree", "porcelain", "amend", "merge", "merge-noff"):
+        if kind in ("worktree", "porcelain", "amend", "merge", "merge-noff", "pull"):
             from dulwich.repo import Repo
             r = Repo.init(self.root)
             self.tree = r.object_store.add_object  # placeholder
@@ -675,6 +675,29 @@ class CommitRun:
             self.tree_id = t.id
             c0 = r.get_worktree().commit(message=b"c0", committer=b"a <a@b>", author=b"a <a@b>", commit_timestamp=1,
                                          commit_timezone=0, author_timestamp=1, author_timezone=0, tree=t.id)
+            if kind == "pull":
+                # an upstream repository (outside the interposed directory) one commit ahead of c0: pulling it is a
+                # fast-forward of the current branch
+                import tempfile
+                from dulwich.objects import Commit
+                self.up = tempfile.mkdtemp(prefix="c08up-", dir=ctx.scratch)
+                up = Repo.init(self.up)
+                up.object_store.add_object(t)
+                up.object_store.add_object(r.object_store[c0])
+                uc = Commit()
+                uc.tree = t.id
+                uc.parents = [c0]
+                uc.author = uc.committer = b"a <a@b>"
+                uc.author_time = uc.commit_time = 5
+                uc.author_timezone = uc.commit_timezone = 0
+                uc.message = b"upstream"
+                up.object_store.add_object(uc)
+                branch = r.refs.follow(b"HEAD")[0][-1]
+                up.refs[branch] = uc.id
+                up.refs.set_symbolic_ref(b"HEAD", branch)
+                up.close()
+                self.side = uc.id
+                self.branch = branch
             if kind in ("merge", "merge-noff"):
                 # a side branch one commit ahead of c0: merging it into the current branch is a fast-forward
                 # (or, with no_ff / after another commit, a merge commit)
@@ -714,7 +737,7 @@ class CommitRun:
 
     def actor(self, a):
         def body():
-            if self.kind in ("worktree", "porcelain", "amend", "merge", "merge-noff"):
+            if self.kind in ("worktree", "porcelain", "amend", "merge", "merge-noff", "pull"):
                 from dulwich.repo import Repo
                 r = Repo(self.root)
                 commit = lambda: r.get_worktree().commit(
@@ -737,7 +760,19 @@ class CommitRun:
                         commit = lambda: porcelain.commit(
                             r, message=b"by %d" % a, committer=b"a <a@b>", author=b"a <a@b>", commit_timestamp=10 + a,
                             commit_timezone=0, author_timestamp=10 + a, author_timezone=0, sign=False)
-                if self.kind in ("merge", "merge-noff") and a == 0:
+                if self.kind == "pull" and a == 0:
+                    from dulwich import porcelain
+                    import io
+
+                    def commit():
+                        porcelain.pull(r, self.up, refspecs=[self.branch], outstream=io.BytesIO(), errstream=io.BytesIO())
+                        return self.side                  # a fast-forward to the upstream commit
+                elif self.kind == "pull":
+                    from dulwich import porcelain
+                    commit = lambda: porcelain.commit(
+                        r, message=b"by %d" % a, committer=b"a <a@b>", author=b"a <a@b>", commit_timestamp=10 + a,
+                        commit_timezone=0, author_timestamp=10 + a, author_timezone=0, sign=False)
+                elif self.kind in ("merge", "merge-noff") and a == 0:
                     from dulwich import porcelain
 
                     def commit(noff=(self.kind == "merge-noff")):
@@ -784,7 +819,7 @@ class CommitRun:
             self.world.note("retop")
             rec["r"] = self.world.seq
             self.ops.append(rec)
-            if self.kind in ("worktree", "porcelain", "amend", "merge", "merge-noff"):
+            if self.kind in ("worktree", "porcelain", "amend", "merge", "merge-noff", "pull"):
                 r.close()
         return body
 
@@ -811,7 +846,7 @@ class CommitRun:
                 for name, orig in patched:
                     setattr(DictRefsContainer, name, orig)
         self.sched = s
-        if self.kind in ("worktree", "porcelain", "amend", "merge", "merge-noff"):
+        if self.kind in ("worktree", "porcelain", "amend", "merge", "merge-noff", "pull"):
             from dulwich.repo import Repo
             r = Repo(self.root)
             tip = r.refs[b"HEAD"]
@@ -1270,6 +1305,7 @@ def run(ctx):
                                          ("amend", 2, False, ctx.pick(1, 2), ctx.pick(200, 4000)),
                                          ("merge", 2, False, ctx.pick(1, 2), ctx.pick(200, 4000)),
                                          ("merge-noff", 2, False, ctx.pick(1, 2), ctx.pick(150, 4000)),
+                                         ("pull", 2, False, ctx.pick(1, 2), ctx.pick(150, 4000)),
                                          ("porcelain", 2, True, ctx.pick(1, 2), ctx.pick(100, 4000)),
                                          ("memory", 2, False, 3, None), ("memory", 3, False, 2, ctx.pick(150, 5000))]:
         def run_once(prefix, kind=kind, n=n, packed=packed):
@@ -1283,7 +1319,7 @@ def run(ctx):
             ncommit += 1
             t = r.trace(tid)
             traces.append(t)
-            site = {"worktree": "dulwich/worktree.py:WorkTree.commit", "porcelain": "dulwich/porcelain:commit", "amend": "dulwich/porcelain:commit(amend=True)", "merge": "dulwich/porcelain:merge", "merge-noff": "dulwich/porcelain:merge(no_ff)"}.get(kind, "dulwich/repo.py:MemoryRepo.do_commit")
+            site = {"worktree": "dulwich/worktree.py:WorkTree.commit", "porcelain": "dulwich/porcelain:commit", "amend": "dulwich/porcelain:commit(amend=True)", "merge": "dulwich/porcelain:merge", "merge-noff": "dulwich/porcelain:merge(no_ff)", "pull": "dulwich/porcelain:pull"}.get(kind, "dulwich/repo.py:MemoryRepo.do_commit")
             meta[tid] = {"sig": f"{site}|LostCommit|actors={n} packed={packed}",
                          "desc": f"{n} concurrent commits ({kind}): {r.commits} tip={r.tip} results={[(o['res'], o.get('excname')) for o in r.ops]}",
                          "choices": s.choices(), "kind": kind}
